@@ -383,6 +383,18 @@ func (s *Session) CheckWith(extra []*Term, model []*Term) (Result, map[*Term]uin
 		s.cur.send("(assert " + e.ref() + ")")
 	}
 	r := s.check()
+	if r == Unknown && !s.cur.dead {
+		// A long incremental session can make an otherwise easy query slow:
+		// retry once in a fresh solver process that only knows this path.
+		s.cur.dead = true
+		s.cur.cmd.Process.Kill()
+		s.restart()
+		for _, e := range extra {
+			s.cur.send("(assert " + e.ref() + ")")
+		}
+		atomic.AddInt64(&Stats.Unknown, -1)
+		r = s.check()
+	}
 	var mv map[*Term]uint64
 	if r == Sat && len(model) > 0 {
 		mv = s.getValues(model)
